@@ -8,7 +8,7 @@ import tlslib, json
 PROTOS = (257, 771, 772)
 DEFECTS = ["untrusted", "fakeroot", "fakerootsent", "fakeroot1", "expired", "notyet", "caexpired", "issuernotca", "issuernobc", "badsig", "cabadsig",
            "wrongissuerkey", "signkeymismatch", "leafku", "pathlen"]
-TLCP_ONLY = ["enckeymismatch", "encbadsig", "encexpired"]
+TLCP_ONLY = ["enckeymismatch", "encbadsig", "encexpired", "encotherissuer", "encselfsigned", "encwrongissuerkey"]
 
 
 def scenarios(c):
